@@ -1,11 +1,330 @@
-// Package c11: correspondence ops for C11 (stub, not yet built).
 package c11
 
 import (
+	"encoding/json"
+	"fmt"
+	"reflect"
+	"sort"
+	"strings"
+
 	"verifharness/internal/core"
 	"verifharness/internal/registry"
 )
 
 func init() { registry.Register("C11", Ops) }
 
-func Ops() []*core.Op { return nil }
+// ---------- classification of a divergence between the incremental and the from-scratch view ----------
+
+func decodeOut(impl any) *Out {
+	b, err := json.Marshal(impl)
+	if err != nil {
+		return nil
+	}
+	var o Out
+	if json.Unmarshal(b, &o) != nil {
+		return nil
+	}
+	return &o
+}
+
+// viewsAt reconstructs the full view at every step (a nil V repeats the previous one).
+func viewsAt(o *Out) map[int]*View {
+	m := map[int]*View{}
+	var prev *View
+	for _, s := range o.Steps {
+		if s.V != nil {
+			prev = s.V
+		}
+		m[s.I] = prev
+	}
+	return m
+}
+
+// diffClass names what differs between the incremental view and the from-scratch view, precisely enough that
+// two different defects never share a class.
+func diffClass(inc, fresh *View) string {
+	if inc == nil || fresh == nil {
+		return "missing-view"
+	}
+	var cls []string
+	add := func(s string) {
+		for _, c := range cls {
+			if c == s {
+				return
+			}
+		}
+		cls = append(cls, s)
+	}
+	fn := map[string]*NodeView{}
+	for i := range fresh.Nodes {
+		fn[fresh.Nodes[i].Pid] = &fresh.Nodes[i]
+	}
+	seen := map[string]bool{}
+	for i := range inc.Nodes {
+		a := &inc.Nodes[i]
+		seen[a.Pid] = true
+		b := fn[a.Pid]
+		if b == nil {
+			add("extra-statenode")
+			continue
+		}
+		shape := "node"
+		if a.Node == "" {
+			shape = "claimonly"
+		}
+		if a.Node != b.Node || a.Claim != b.Claim || a.Name != b.Name || a.Pool != b.Pool {
+			add("objects")
+		}
+		if a.Flags != b.Flags {
+			add("flags")
+		}
+		if !reflect.DeepEqual(a.Cap, b.Cap) {
+			add("capacity")
+		}
+		// everything derived from the pods bound to the node
+		resAgg := !reflect.DeepEqual(a.Req, b.Req) || !reflect.DeepEqual(a.Lim, b.Lim) || !reflect.DeepEqual(a.DReq, b.DReq) || !reflect.DeepEqual(a.DLim, b.DLim)
+		costD, hpD, volD := a.Cost != b.Cost, !reflect.DeepEqual(a.HP, b.HP), a.Vol != b.Vol
+		switch {
+		case shape == "claimonly" && (resAgg || costD || hpD || volD):
+			add("pod-usage@claimonly") // a state node without Node must not show any pod usage
+		case resAgg:
+			add("pod-usage@node")
+		default:
+			if costD {
+				if a.Cost < b.Cost {
+					add("cost-low@node")
+				} else {
+					add("cost-high@node")
+				}
+			}
+			if hpD {
+				add("hostports-only@node")
+			}
+			if volD {
+				add("volumes-only@node")
+			}
+		}
+	}
+	for pid := range fn {
+		if !seen[pid] {
+			add("missing-statenode")
+		}
+	}
+	for i := range inc.Pools {
+		if i >= len(fresh.Pools) {
+			break
+		}
+		if !reflect.DeepEqual(inc.Pools[i].Res, fresh.Pools[i].Res) {
+			add("poolresources")
+		}
+		if !reflect.DeepEqual(inc.Pools[i].Cnt, fresh.Pools[i].Cnt) {
+			add("nodecounts")
+		}
+	}
+	if !reflect.DeepEqual(inc.Claims, fresh.Claims) {
+		add("claimnames")
+	}
+	sort.Strings(cls)
+	return strings.Join(cls, ",")
+}
+
+// signatureHistory: what the implementation's own from-scratch oracle says is stale at the first quiescent point where
+// the incremental state differs from it. Only the strict corpus witnesses ("witness:" prefix) can match a known finding:
+// in every other case the recorded defects are already exempted by the driver, so a failure is always a new one.
+func signatureHistory(raw json.RawMessage, impl any) string {
+	var in struct {
+		Strict bool `json:"strict"`
+	}
+	json.Unmarshal(raw, &in)
+	pre := ""
+	if in.Strict {
+		pre = "witness:"
+	}
+	o := decodeOut(impl)
+	if o == nil {
+		return pre + "undecodable"
+	}
+	if o.Panic != "" {
+		return pre + "panic:" + o.Panic
+	}
+	vs := viewsAt(o)
+	for _, f := range o.Fresh {
+		if c := diffClass(vs[f.I], f.V); c != "" {
+			return pre + "stale:" + c
+		}
+	}
+	return pre + "incremental-equals-fresh"
+}
+
+// ---------- features of a history (labels / non-triviality) ----------
+
+type features struct {
+	pidChange, podMove, podRecreateUnbound, deleteBeforeUpdate, nodeGoneClaimStays, quiescentWithPods bool
+}
+
+func featuresOf(in *In, o *Out) features {
+	var f features
+	nodePid, claimPid, podNode := map[string]string{}, map[string]string{}, map[string]string{}
+	dirty := map[string]string{} // key -> last API event type while dirty
+	for _, e := range in.Ev {
+		switch e.T {
+		case "node":
+			if old, ok := nodePid[e.Name]; ok && old != e.Pid {
+				f.pidChange = true
+			}
+			nodePid[e.Name] = e.Pid
+		case "claim":
+			if old, ok := claimPid[e.Name]; ok && old != e.Pid {
+				f.pidChange = true
+			}
+			claimPid[e.Name] = e.Pid
+		case "pod":
+			if old, ok := podNode[e.Name]; ok && old != "" && old != e.Node {
+				if e.Node == "" {
+					f.podRecreateUnbound = true
+				} else {
+					f.podMove = true
+				}
+			}
+			podNode[e.Name] = e.Node
+		case "nodeGone":
+			if _, ok := claimPid["c"+strings.TrimPrefix(e.Name, "n")]; ok {
+				f.nodeGoneClaimStays = true
+			}
+		}
+		if isAPI(e.T) {
+			k := kindOf(e.T) + "/" + e.Name
+			if prev, ok := dirty[k]; ok && strings.HasSuffix(prev, "Gone") && !strings.HasSuffix(e.T, "Gone") {
+				f.deleteBeforeUpdate = true // deleted and recreated before any delivery
+			}
+			dirty[k] = e.T
+		} else if k := kindOf(e.T); k != "" {
+			delete(dirty, k+"/"+e.Name)
+		}
+	}
+	if o != nil {
+		vs := viewsAt(o)
+		for _, s := range o.Steps {
+			if !s.Q {
+				continue
+			}
+			if v := vs[s.I]; v != nil {
+				for _, n := range v.Nodes {
+					if len(n.Req) > 2 && n.Req[2] > 0 {
+						f.quiescentWithPods = true
+					}
+				}
+			}
+		}
+	}
+	return f
+}
+
+func labelsHistory(raw json.RawMessage, impl any) []string {
+	var in In
+	json.Unmarshal(raw, &in)
+	o := decodeOut(impl)
+	f := featuresOf(&in, o)
+	l := []string{fmt.Sprintf("len<=%d", ((len(in.Ev)/40)+1)*40)}
+	cnt := map[string]bool{}
+	for _, e := range in.Ev {
+		cnt["ev:"+e.T] = true
+	}
+	for k := range cnt {
+		l = append(l, k)
+	}
+	if f.pidChange {
+		l = append(l, "provider-id-change")
+	}
+	if f.podMove {
+		l = append(l, "pod-same-name-other-node")
+	}
+	if f.podRecreateUnbound {
+		l = append(l, "pod-same-name-unbound")
+	}
+	if f.deleteBeforeUpdate {
+		l = append(l, "delete-then-recreate-undelivered")
+	}
+	if f.nodeGoneClaimStays {
+		l = append(l, "node-gone-claim-stays")
+	}
+	if f.quiescentWithPods {
+		l = append(l, "quiescent-with-pods")
+	}
+	if o != nil {
+		l = append(l, fmt.Sprintf("fresh-oracle-points=%d", len(o.Fresh)))
+		if o.Panic != "" {
+			l = append(l, "panic:"+o.Panic)
+		}
+		for _, s := range o.Steps {
+			if s.R == "requeue" {
+				l = append(l, "pod-requeued-unknown-node")
+				break
+			}
+		}
+		l = append(l, "sig:"+signatureHistory(raw, impl))
+	}
+	return l
+}
+
+func shrinkHistory(raw json.RawMessage) []any {
+	var in In
+	json.Unmarshal(raw, &in)
+	var out []any
+	for _, c := range core.ShrinkList(in.Ev) {
+		out = append(out, In{Pvcs: in.Pvcs, Ev: c})
+	}
+	// drop events from the end first (keeps prefixes meaningful)
+	for k := len(in.Ev) - 1; k >= 0 && k >= len(in.Ev)-60; k-- {
+		c := append(append([]Ev{}, in.Ev[:k]...), in.Ev[k+1:]...)
+		out = append(out, In{Pvcs: in.Pvcs, Ev: c})
+	}
+	return out
+}
+
+func nontrivialHistory(raw json.RawMessage, impl any) bool {
+	var in In
+	json.Unmarshal(raw, &in)
+	f := featuresOf(&in, decodeOut(impl))
+	return f.quiescentWithPods && (f.pidChange || f.podMove || f.podRecreateUnbound || f.deleteBeforeUpdate || f.nodeGoneClaimStays)
+}
+
+const implDoc = "through the real informer Node/NodeClaim/Pod controllers (Reconcile) into the real state.Cluster on the controller-runtime fake client; every exported accessor of Cluster/StateNode/NodePoolState/HostPortUsage/VolumeUsage after every step; a fresh Cluster fed the same API objects at quiescent points"
+
+func Ops() []*core.Op {
+	return []*core.Op{
+		{
+			Name: "c11.history",
+			Doc:  "random event histories (API changes of Nodes/NodeClaims/Pods incl. provider-id changes, same-name pods, undelivered deletes; reconcile deliveries in any order with duplicates; MarkForDeletion/Unmark/Nominate) " + implDoc,
+			N: func(t core.Tier) int {
+				if t == core.Thorough {
+					return 8000
+				}
+				return 800
+			},
+			Gen:        genHistory,
+			Impl:       implHistory,
+			Rule:       "random walks over 1-3 node/claim pairs and 1-5 pod names (8..53 events quick, 8..168 thorough), 5% malformed streams (colliding provider ids etc.: model correspondence only); non-trivial = a quiescent point is reached with pods on a tracked node and the history contains a provider-id change, a same-name pod on another node/unbound, an undelivered delete+recreate, or a node removed while its claim stays",
+			Nontrivial: nontrivialHistory,
+			Labels:     labelsHistory,
+			Signature:  signatureHistory,
+			Shrink:     shrinkHistory,
+		},
+		{
+			Name: "c11.orders",
+			Doc:  "every delivery order of the reconciles that settle 7 fixed API scripts (creation, NodeClaim update after settling, node gets its provider id, pod moves to another node, delete everything, deleting claim, registration) " + implDoc,
+			Enum: enumHistory,
+			Impl: implHistory,
+			Rule: "exhaustive: all permutations of the settling reconciles per script; non-trivial = a quiescent point is reached with pods on a tracked node",
+			Nontrivial: func(raw json.RawMessage, impl any) bool {
+				var in In
+				json.Unmarshal(raw, &in)
+				return featuresOf(&in, decodeOut(impl)).quiescentWithPods
+			},
+			Labels:         labelsHistory,
+			Signature:      signatureHistory,
+			Shrink:         shrinkHistory,
+			ExhaustiveNote: "all delivery orders of the settling reconciles for 7 fixed API scripts",
+		},
+	}
+}
